@@ -274,6 +274,8 @@ def hand_sql(schema, op, rng):
                 out.append("INSERT INTO %s (%s) VALUES (%d)" % (q(t.name), q("id"), 1000 + n))
             elif f == "index":
                 out.append("CREATE INDEX %s ON %s (%s)" % (q("idx_" + t.name + "_tmp"), q(t.name), q(t.cols[1].name)))
+            elif f == "dropcol" and len(t.cols) > 2:
+                out.append("ALTER TABLE %s DROP COLUMN %s" % (q(t.name), q(t.cols[-1].name)))
             elif f == "addcol":
                 out.append("ALTER TABLE %s ADD COLUMN %s integer NULL" % (q(t.name), q("extra_c")))
             elif f == "copy" and schema.tables:
@@ -453,8 +455,8 @@ def make_op(rng, schema, kind, writer):
         pool = [n for n in pool if n not in taken]
         t = rand_table(rng, rng.choice(pool), ncols=rng.randint(1, 3), gens=False)
         t.indexes = []
-        fillers = [rng.choice(["insert", "index", "addcol", "copy", "update"]) for _ in range(rng.choice([0, 1, 2, 2, 3, 4]))]
-        for once in ("index", "addcol"):  # fixed object names: at most one of each
+        fillers = [rng.choice(["insert", "index", "addcol", "copy", "update", "dropcol"]) for _ in range(rng.choice([0, 1, 2, 2, 3, 4]))]
+        for once in ("index", "addcol", "dropcol"):  # fixed object names: at most one of each
             if once in fillers:
                 fillers = [f for f in fillers if f != once] + [once]
         return {"op": "temp_table", "table": t, "fillers": fillers}
